@@ -30,8 +30,8 @@ ASSUMPTIONS = [
     'licensed cut-off: a transmittance term whose vertical optical depth is >= 10 at every wavenumber may be '
     'replaced by 0; by Abel summation the intensity then deviates by at most exp(-10)*(B_0 + sum_l |B_{l-1}-B_l|)',
 ]
-_Q = {'emission': 100, 'direct': 35, 'isothermal': 35, 'rerun': 40, 'ktable': 40}
-_T = {'emission': 2000, 'direct': 600, 'isothermal': 600, 'rerun': 800, 'ktable': 700}
+_Q = {'emission': 100, 'direct': 35, 'isothermal': 35, 'rerun': 40, 'ktable': 40, 'several': 25}
+_T = {'emission': 2000, 'direct': 600, 'isothermal': 600, 'rerun': 800, 'ktable': 700, 'several': 400}
 BUDGET = {
     'quick': [dict(name='boundscheck', env={'NUMBA_BOUNDSCHECK': '1'}, shards=4, cases=_Q)],
     'thorough': [dict(name='boundscheck', env={'NUMBA_BOUNDSCHECK': '1'}, shards=16, cases=_T),
@@ -44,7 +44,8 @@ REQUIRED = dict(monitors=['intensity-per-angle', 'flux', 'eclipse-spectrum', 'di
                          'T:isothermal', 'T:array', 'magnitude:transparent', 'magnitude:saturating',
                          'rerun:evaluated-after-change', 'mode:ktable', 'ktable:continuum-only-model',
                          'ktable:model_contrib-entry-judged', 'ktable-mode:no-molecular-absorber',
-                         'fault:fired:temperature', 'fault:fired:chemistry', 'fault:fired:contribution', 'fault:fired:pressure'])
+                         'fault:fired:temperature', 'fault:fired:chemistry', 'fault:fired:contribution', 'fault:fired:pressure',
+                         'several:evaluation-judged', 'several:set_quadratures-on-another-model'])
 CUT = math.exp(-10.0)
 _state = {}
 
@@ -450,7 +451,63 @@ def wl_rerun(ctx, rng):
             round(spec['planet_mass'], 6))
 
 
-WORKLOADS = {'emission': wl_emission, 'direct': wl_direct, 'isothermal': wl_isothermal, 'rerun': wl_rerun,
+def wl_several(ctx, rng):
+    """Several emission / direct-image model objects alive at once and evaluated in turn; in between one further model
+    of the same quadrature order is given its own nodes through the public set_quadratures().  Every evaluation of the
+    other models is judged by the ordinary oracle (Gauss-Legendre nodes, layered integral): nothing may leak between
+    objects."""
+    from taurex.exceptions import InvalidModelException
+    spec = make_case(rng)
+    kinds = ['emission', 'directimage', 'emission'][:int(rng.integers(2, 4))]
+    observe_case(ctx, spec, kinds[0])
+    variants = [spec]
+    for _ in kinds[1:]:
+        v = dict(spec)
+        if rng.random() < 0.5:
+            v['planet_radius'] = float(v['planet_radius'] * rng.uniform(1.0, 1.2))
+        variants.append(v if world.is_bound(v) else dict(spec))
+    models = [realise(variants[0], kinds[0])]
+    for v, k in zip(variants[1:], kinds[1:]):
+        m = world.build_model(v, k, ngauss=v['ngauss'])
+        world.add_contributions(m, v)
+        models.append(m)
+    odd = world.build_model(spec, 'emission', ngauss=spec['ngauss'])       # the one that gets its own quadrature
+    world.add_contributions(odd, spec)
+    built = [False] * len(models)
+    seq = [int(i) for i in rng.permutation(len(models))] + [-1] + [int(i) for i in rng.integers(0, len(models), int(rng.integers(2, 5)))]
+    ctx.feature(summary=world.spec_summary(spec), kinds=kinds, sequence=seq, ngauss=spec['ngauss'])
+    for i in seq:
+        if i < 0:
+            ng = spec['ngauss']
+            mu = np.linspace(-1, 1, 2 * ng + 1)[1::2]            # a midpoint rule on [-1, 1]
+            odd.set_quadratures(mu, np.full(ng, 2.0 / ng))
+            try:
+                odd.build()
+                odd.model()
+            except InvalidModelException as e:
+                ctx.license(type(e).__name__)
+            ctx.observe('several:set_quadratures-on-another-model')
+            continue
+        _state['snap'] = None
+        try:
+            if not built[i]:
+                models[i].build()
+                built[i] = True
+            out = models[i].model()
+        except InvalidModelException as e:
+            if models[i].temperature.__class__.__name__ != 'Guillot2010':
+                raise
+            ctx.license(type(e).__name__)
+            return
+        snap = _state['snap']
+        _state['snap'] = None
+        res = oracle(ctx, snap, variants[i])
+        judge_spectrum(ctx, snap, out, res, variants[i], kinds[i])
+        ctx.observe('several:evaluation-judged')
+    ctx.sig('several', tuple(kinds), tuple(seq), spec['nlayers'], spec['ngauss'], round(spec['planet_mass'], 6))
+
+
+WORKLOADS = {'several': wl_several, 'emission': wl_emission, 'direct': wl_direct, 'isothermal': wl_isothermal, 'rerun': wl_rerun,
              'ktable': wl_ktable}
 
 LEVEL_TEXT = ('Exploration by runtime monitoring: every evaluate_emission / compute_final_flux call made by the workload '
